@@ -1,6 +1,9 @@
-(* Model of pyparsing.util.make_compressed_re for max_level = 0 (the non-recursive fallback: an alternation of the
-   escaped words, longest escaped text first, or one character class when every word is a single character).
-   Executable definitions only.  The recursive levels are not modelled in Coq (correspondence only). *)
+(* Model of pyparsing.util.make_compressed_re.
+   max_level = 0: the non-recursive fallback (an alternation of the escaped words, longest escaped text first, or one
+   character class when every word is a single character) — `compressed0`.
+   max_level >= 1: the recursive grouping by first character — `comp_go`, `compressed_re`.
+   Also `re.escape` at the text level (`re_escape`) and a reader of escaped literal text (`read_lit`).
+   Executable definitions only. *)
 From Coq Require Import List NArith Arith Bool Lia.
 From PP Require Import Model.Str Model.Regex.
 Import ListNotations.
@@ -30,3 +33,131 @@ Definition compressed0 (words : list str) : re :=
   if existsb (fun w => 1 <? length w) ws
   then ralt (map rlit (sort_desc escaped_len ws))
   else RSet false false (map CI_char (concat ws)).
+
+(* ================================================================== max_level >= 1 : the recursive prefix grouping
+
+   make_compressed_re(word_list, max_level, _level=1):
+       word_list = list({}.fromkeys(word_list))                                   -> dedup
+       for initial, suffixes in get_suffixes_from_common_prefixes(sorted(word_list)):
+           itertools.groupby(namelist, key=lambda s: s[:1])                      -> group_first (sort_asc ...)
+           sorted([s[1:] for s in suffixes], key=len, reverse=True)              -> sort_desc length (map (skipn 1) ..)
+           (the one-word branch `yield namelist[0][0], [namelist[0][1:]]` is the same pair for a non-empty word)
+           trailing = "?" if "" in suffixes; suffixes.remove("")                  -> has_empty / remove_empty
+           ...                                                                    -> group_re
+       "".join(ret) with sep "|"                                                  -> ralt
+   `_level < max_level` is the counter `fuel = max_level - _level` (None = the last level, Some = one more recursion).
+   The text is modelled at the AST level (the AST that sre_parse gives for the emitted text, modulo association of
+   sequences and sre_parse's own rewriting of alternations, which the correspondence check normalises):
+   `re.escape(w)` is `rlit w`, `[...]` with `_escape_regex_range_chars` is the set of the characters, `(?:X)` is
+   `RGroup None X`, `X?` is `ROpt Greedy X`.  `non_capturing_groups` is fixed to its default True. *)
+
+(* Python's str `<` : code-point lexicographic, a proper prefix is smaller *)
+Fixpoint str_ltb (a b : str) : bool :=
+  match a, b with
+  | _, [] => false
+  | [], _ :: _ => true
+  | x :: a', y :: b' => N.ltb x y || (N.eqb x y && str_ltb a' b')
+  end.
+
+(* sorted(l) : stable insertion sort, ascending *)
+Fixpoint insert_asc (x : str) (l : list str) : list str :=
+  match l with
+  | [] => [x]
+  | y :: t => if str_ltb y x then y :: insert_asc x t else x :: l
+  end.
+Definition sort_asc (l : list str) : list str := fold_right insert_asc [] l.
+
+(* itertools.groupby(l, key=lambda s: s[:1]) : maximal runs of consecutive words with the same s[:1] *)
+Fixpoint group_first (l : list str) : list (str * list str) :=
+  match l with
+  | [] => []
+  | w :: t =>
+    match group_first t with
+    | (k, g) :: rest => if str_eqb (firstn 1 w) k then (k, w :: g) :: rest else (firstn 1 w, [w]) :: (k, g) :: rest
+    | [] => [(firstn 1 w, [w])]
+    end
+  end.
+
+Definition is_empty_str (w : str) : bool := match w with [] => true | _ => false end.
+Definition has_empty (l : list str) : bool := existsb is_empty_str l.
+(* list.remove("") : the first occurrence *)
+Fixpoint remove_empty (l : list str) : list str :=
+  match l with
+  | [] => []
+  | w :: t => if is_empty_str w then t else w :: remove_empty t
+  end.
+
+(* trailing = "?" and suffixes.remove("") when "" in suffixes *)
+Definition strip_empty (l : list str) : list str := if has_empty l then remove_empty l else l.
+
+Definition all_len1 (l : list str) : bool := forallb (fun w => length w =? 1) l.
+Definition opt_if (b : bool) (r : re) : re := if b then ROpt Greedy r else r.
+
+(* one iteration of the for loop: the text appended for (initial, suffixes); `rec` is the recursive call when
+   _level < max_level *)
+Definition group_re (rec : option (list str -> re)) (initial : str) (suffixes0 : list str) : re :=
+  let trailing := has_empty suffixes0 in
+  let suffixes := strip_empty suffixes0 in
+  if 1 <? length suffixes then
+    if all_len1 suffixes then
+      RSeq (rlit initial) (opt_if trailing (RSet false false (map CI_char (concat suffixes))))
+    else
+      match rec with
+      | Some f => RSeq (rlit initial) (opt_if trailing (RGroup None (f (sort_asc suffixes))))
+      | None => RSeq (rlit initial) (opt_if trailing (RGroup None (ralt (map rlit (sort_desc (@length char) suffixes)))))
+      end
+  else
+    match suffixes with
+    | suffix :: _ =>
+        if (1 <? escaped_len suffix) && trailing
+        then RSeq (rlit initial) (ROpt Greedy (RGroup None (rlit suffix)))
+        else RSeq (rlit initial) (opt_if trailing (rlit suffix))
+    | [] => rlit initial
+    end.
+
+(* the for loop over the groups of the (deduplicated) word list, joined with "|" *)
+Definition comp_body (rec : option (list str -> re)) (ws : list str) : re :=
+  ralt (map (fun g => group_re rec (fst g) (sort_desc (@length char) (map (skipn 1) (snd g))))
+            (group_first (sort_asc ws))).
+
+(* the body of make_compressed_re for max_level >= 1; fuel = max_level - _level.
+   An empty word list gives "" (internal calls only; unreachable: the recursion is entered with > 1 suffixes). *)
+Fixpoint comp_go (fuel : nat) (words : list str) : re :=
+  match dedup words with
+  | [] => REps
+  | ws => comp_body (match fuel with 0 => None | S f => Some (comp_go f) end) ws
+  end.
+
+(* make_compressed_re(words, max_level) for a list argument; None = ValueError (no words / an empty word) *)
+Definition compressed_re (words : list str) (max_level : nat) : option re :=
+  match words with
+  | [] => None
+  | _ =>
+    if has_empty words then None
+    else Some (match max_level with 0 => compressed0 words | S f => comp_go f words end)
+  end.
+
+(* ================================================================== re.escape at the text level
+   re.escape(w): a backslash before every character of re._special_chars_map; and the reading of such a text
+   by the regex parser restricted to literal sequences: `\c` for a non-alphanumeric c is the literal c, an
+   unescaped character outside the metacharacters is itself, anything else is refused (None). *)
+Definition escape_char (c : char) : str := if mem_char c re_special then [92%N; c] else [c].
+Definition re_escape (w : str) : str := flat_map escape_char w.
+
+Definition is_alnum_ascii (c : char) : bool := is_digit_char c || is_upper_ascii c || is_lower_ascii c.
+(* . ^ $ * + ? { } [ ] \ | ( ) *)
+Definition re_meta : list char := [46; 94; 36; 42; 43; 63; 123; 125; 91; 93; 92; 124; 40; 41]%N.
+
+Fixpoint read_lit (t : str) : option str :=
+  match t with
+  | [] => Some []
+  | c :: t1 =>
+    if N.eqb c 92%N then
+      match t1 with
+      | d :: t2 => if is_alnum_ascii d then None
+                   else match read_lit t2 with Some w => Some (d :: w) | None => None end
+      | [] => None
+      end
+    else if mem_char c re_meta then None
+    else match read_lit t1 with Some w => Some (c :: w) | None => None end
+  end.
